@@ -315,6 +315,19 @@ pub fn run(tier: Tier) -> i32 {
         for c in [1usize, 2, 3, 4, 5, 7, 4096, 65536] {
             jobs.push(Job { ti, rd: None, sk: Sk { chunk: c, vectored: true, ..Sk::default() }, fault: false, what: format!("sink with write_vectored accepting at most {} byte(s) per call, across buffers", c) });
         }
+        // a sink of fixed capacity: accepts what fits, then Ok(0) for ever (`&mut [u8]`, a full pipe) => Err, accepted bytes a prefix
+        {
+            let n = b.out.len();
+            let mut caps: Vec<usize> = vec![0, 1, 2, 12, 13, 14, n / 4, n / 2, 4095, 4096, 4097, 8191, 8192, 65535, 65536, n.saturating_sub(2), n.saturating_sub(1)];
+            caps.retain(|c| *c < n);
+            caps.sort_unstable();
+            caps.dedup();
+            for cap in caps {
+                for chunk in [0usize, 3] {
+                    jobs.push(Job { ti, rd: None, sk: Sk { full_after: Some(cap), chunk, ..Sk::default() }, fault: true, what: format!("sink is full after {} of {} bytes (Ok(0) from then on{})", cap, n, if chunk > 0 { ", 3 bytes per write before" } else { "" }) });
+                }
+            }
+        }
         let n = b.out.len();
         let stride = (n / tier.pick(1500, 20_000)).max(1);
         let mut p = 1;
